@@ -517,6 +517,11 @@ func runEngScenario(s EngScenario, withOracle bool) (EngObs, error) {
 	if withOracle && obs.OracleMsg == "" {
 		obs.OracleMsg = engProtocolOracle(s, obs)
 	}
+	// C14 on the implementation alone: the library's Boom() panics with a string value; once it has been entered with
+	// ReturnErrOnFailedRuleEvaluation set the run must end with an error naming a rule
+	if withOracle && obs.OracleMsg == "" && obs.Calls["Boom"] > 0 && s.CancelAt < 0 && s.RetErr && (obs.Outcome == "nil" || obs.Outcome == "cyclelimit") {
+		obs.OracleMsg = fmt.Sprintf("C14: the panicking method Boom was entered %d time(s) with ReturnErrOnFailedRuleEvaluation set, yet Execute reported %q: the failure was swallowed", obs.Calls["Boom"], obs.Outcome)
+	}
 	if strings.HasPrefix(obs.Outcome, "panic:") && obs.OracleMsg == "" {
 		obs.OracleMsg = "C14: a panic escaped Execute: " + obs.Outcome
 	}
